@@ -47,10 +47,11 @@ func constOf(c *Ctx, rel, name string) int64 {
 
 func buildAbmfModel(c *Ctx) *abmfModel {
 	outer := c.fn("pkg/abmf", "handleCCR")
-	if len(outer.AnonFuncs) != 1 {
-		broken("anchor: handleCCR is expected to return one function literal, found %d", len(outer.AnonFuncs))
+	hs := returnedFuncs(outer)
+	if len(hs) != 1 {
+		broken("anchor: handleCCR is expected to return one handler function, found %d", len(hs))
 	}
-	f := outer.AnonFuncs[0]
+	f := hs[0]
 	m := &abmfModel{c: c, f: f, fe: newFormEval(f)}
 	eachInstr(f, func(_ *ssa.BasicBlock, _ int, ins ssa.Instruction) {
 		call, ok := ins.(*ssa.Call)
